@@ -45,6 +45,8 @@ inductive Reply where
   | answer (a : UInt8)
   | answers (as : List UInt8)
   | password (p : Bytes) (isErr : Bool)
+  /-- verdict of `Message.ReadFrom`: error?, and is it io.EOF / io.ErrUnexpectedEOF (reported as ErrConnLost)? -/
+  | parsed (isErr : Bool) (eofClass : Bool)
 deriving Repr
 
 inductive Proc (α : Type) : Type where
